@@ -914,3 +914,54 @@ def coq_mismatches(items, tag, shard_size=150, timeout=900):
             return common.coq_mismatches(IMPORTS, items, tag + "r", shard_size=shard_size, timeout=timeout)
         finally:
             common.NPROC = saved
+
+
+# ------------------------------------------------------------------ unit pairs
+def dim_groups(tbl, exact_only=False):
+    groups = {}
+    for r in tbl.rows:
+        if exact_only and not r.exact:
+            continue
+        groups.setdefault(tbl.dimkey([F(r.name)]), []).append(r.name)
+    return groups
+
+
+def ordered_pairs(tbl, exact_only=False):
+    """every ordered pair (a, b) of same-dimension units of the table, a != b, plus (a, a)"""
+    out = []
+    for g in dim_groups(tbl, exact_only).values():
+        for a in g:
+            for b in g:
+                out.append((a, b))
+    return out
+
+
+def one_factor(tbl, rng, name, prefix_p=0.0):
+    r = tbl.by_name[name]
+    pk, pe = "M", 0
+    if prefix_p and rng.random() < prefix_p:
+        pk, pe = rng.choice(accepted_prefixes(r))
+    return [Factor((name, pk, pe, 1, 1))]
+
+
+def any_scale(tbl, u):
+    """Fraction for exact units, float otherwise"""
+    return tbl.scale(u) if tbl.exact_unit(u) else tbl.fscale(u)
+
+
+def rel_close(x, y, rel):
+    x, y = float(x), float(y)
+    if x == y:
+        return True
+    return abs(x - y) <= rel * max(abs(x), abs(y))
+
+
+# float-exact replica of Quantity::convert_to for ONE-factor units with different
+# (prefix, unit): no common factors, no canonicalisation effects
+def replica_convert(tbl, v, ua, ub):
+    if ua == ub or v == 0.0:
+        return v
+    assert len(ua) == 1 and len(ub) == 1
+    factor = f_to_base_factor(tbl, ub)
+    qb = (v / 1.0) * f_to_base_factor(tbl, ua)
+    return qb / factor
